@@ -2,6 +2,7 @@ import logging
 
 from flask import Response
 from flask import request as flask_req
+from werkzeug.urls import iri_to_uri
 from werkzeug.utils import import_string
 
 from authlib.common.security import generate_token
@@ -162,7 +163,10 @@ class AuthorizationServer(_AuthorizationServer):
             body = request.form.to_dict(flat=True)
         else:
             body = None
-        return OAuth1Request(request.method, request.url, body, request.headers)
+        # ``request.url`` is an IRI (escaped non-ASCII characters are decoded),
+        # the signature base string is built from the URI as it was requested
+        uri = iri_to_uri(request.url)
+        return OAuth1Request(request.method, uri, body, request.headers)
 
     def handle_response(self, status_code, payload, headers):
         return Response(url_encode(payload), status=status_code, headers=headers)
